@@ -34,7 +34,25 @@ def _one(pid: str):
     ]
     if _ROOT[0]:
         lines = [l.replace(_ROOT[0] + "/", "") for l in lines]
+    _KNOWN_SEEN.setdefault(pid, set()).update(l.split(" :: ")[0].split(" ", 2)[2] for l in out.splitlines() if l.startswith("KNOWN-FINDING:"))
     return pid, p.returncode, lines, out
+
+
+_KNOWN_SEEN: dict = {}
+
+
+def absent_known_findings() -> list:
+    """open rows of known_findings.jsonl that the last ``run_all`` on the unchanged tree did not
+    reproduce — on the unchanged tree that means a rule lost its grip (development-time check)"""
+    out = []
+    for line in open(os.path.join(VERIF, "known_findings.jsonl")):
+        line = line.strip()
+        if not line.startswith("{"):
+            continue
+        row = json.loads(line)
+        if row.get("status") == "open" and row["property"] in _KNOWN_SEEN and row["key"] not in _KNOWN_SEEN[row["property"]]:
+            out.append(f"{row['property']} {row['key']}")
+    return out
 
 
 def run_all(full: bool = False, root: str | None = None, only: list | None = None) -> dict:
@@ -83,5 +101,8 @@ if __name__ == "__main__":
         for l in r["report"]:
             print("   ", l)
     print("fired:", sorted(res))
-    sys.exit(1 if res else 0)
+    gone = absent_known_findings()
+    for g in gone:
+        print("OPEN FINDING NOT REPRODUCED (rule regression?):", g)
+    sys.exit(1 if res or gone else 0)
 
